@@ -37,11 +37,7 @@ func htmlImageList(n *html.Node) []string {
 			if s := attr(x, "src"); s != "" {
 				out = append(out, s)
 			}
-			for _, cand := range strings.Split(attr(x, "srcset"), ",") {
-				if f := strings.Fields(cand); len(f) > 0 {
-					out = append(out, f[0])
-				}
-			}
+			out = append(out, parseSrcset(attr(x, "srcset"))...)
 		}
 		return true
 	})
@@ -65,6 +61,11 @@ func asciiWordCount(text string) int {
 func runC09(c *Ctx, idx int) {
 	if idx%3 == 2 {
 		prof := Profile{Inline: true, JSAnchors: true, Headings: true, Lists: true, Quotes: true, Pre: true, Chrome: true, Wrappers: true, Punct: true, ShortBias: 300}
+		if idx%2 == 0 {
+			// short pages with "unlikely" wrappers: the extraction falls back to
+			// its second pass (markers ignored) and the count must follow
+			prof.Unlikely, prof.MinBlocks, prof.MaxBlocks = 500, 2, 7
+		}
 		ar, ok := c.runArticle(idx, prof, nil)
 		if !ok {
 			return
